@@ -52,6 +52,9 @@ type vFS struct {
 
 var vfs *vFS
 
+// vThirdFile: the first directory also holds c.json (set by harnesses that want three-way conflicts)
+var vThirdFile bool
+
 func vAlnum(b byte) bool {
 	return (b >= 'a' && b <= 'z') || (b >= 'A' && b <= 'Z') || (b >= '0' && b <= '9')
 }
@@ -73,7 +76,11 @@ func vDrawFS(ndirs int, faults bool, maxDevs int) *vFS {
 			d.path = m.root + "/file" + string(rune('0'+i)) + "/sub"
 		}
 		d.noise = i == 0 && nondetChoice(p+"noise", 2) == 1
-		for j, name := range []string{"a.json", "b.yaml"} {
+		names := []string{"a.json", "b.yaml"}
+		if i == 0 && vThirdFile {
+			names = append(names, "c.json") // a third Spec file in the first directory: three-way conflicts
+		}
+		for j, name := range names {
 			f := &vFile{name: name}
 			q := p + string(rune('a'+j)) + "."
 			if i >= 2 && j == 1 {
@@ -348,4 +355,28 @@ func vRewriteValid(d *vDir, f *vFile) {
 		devs = append(devs, `{"name":"`+n+`","containerEdits":{"env":["DEV=`+n+`"]}}`)
 	}
 	os.WriteFile(filepath.Join(d.path, f.name), []byte(`{"cdiVersion":"0.6.0","kind":"`+f.vendor+`/c","devices":[`+strings.Join(devs, ",")+`]}`), 0o644)
+}
+
+// vSetFileState changes what a Spec-named file is, in the model and (natively) on disk
+func vSetFileState(d *vDir, f *vFile, state int) {
+	f.state = state
+	if !vnative() {
+		return
+	}
+	p := filepath.Join(d.path, f.name)
+	os.Remove(p)
+	switch state {
+	case vFileValid:
+		vRewriteValid(d, f)
+	case vFileInvalid:
+		os.WriteFile(p, []byte("cdiVersion: [unterminated"), 0o644)
+	}
+}
+
+func vToggleFile(d *vDir, f *vFile) {
+	if f.state == vFileValid {
+		vSetFileState(d, f, vFileAbsent)
+	} else {
+		vSetFileState(d, f, vFileValid)
+	}
 }
